@@ -117,5 +117,5 @@ func r16_3(c *Ctx, r *Report) {
 	declaredInputsRule(c, r, rule, func(ai accessorInputs) bool {
 		return (ai.cls.typ == "Lunar" || ai.cls.typ == "LunarTime" || ai.cls.typ == "LunarYear" || ai.cls.typ == "LunarMonth") && strings.Contains(ai.fn.Name(), "NineStar")
 	}, 10)
-	likeWithLikeRule(c, r, "R16.4", func(fn *ssa.Function) bool { return strings.Contains(fn.Name(), "NineStar") }, 8)
+	likeWithLikeRule(c, r, "R16.4", func(fn *ssa.Function) bool { return strings.Contains(fn.Name(), "NineStar") }, 2)
 }
